@@ -183,19 +183,41 @@ func (x *Exec) merge(states []*State) *State {
 		res.heap[k] = mergeVal("heap."+k, vals)
 		mergeLift = nil
 	}
-	for k := range live[0].ghost {
+	gk := map[string]bool{}
+	for _, s := range live {
+		for k := range s.ghost {
+			gk[k] = true
+		}
+	}
+	var gkeys []string
+	for k := range gk {
+		gkeys = append(gkeys, k)
+	}
+	sort.Strings(gkeys)
+	for _, k := range gkeys {
 		var vals []Val
-		ok := true
+		var proto Val
+		for _, s := range live {
+			if v, has := s.ghost[k]; has {
+				proto = v
+				break
+			}
+		}
+		missing := false
 		for _, s := range live {
 			v, has := s.ghost[k]
 			if !has {
-				ok = false
-				break
+				// a ghost value (a callee's witness) that a path never produced: arbitrary on that path
+				// (arbitrary: the value the other paths have is as good as any, and keeps the merged value syntactically simple)
+				missing = true
+				v = proto
 			}
 			vals = append(vals, v)
 		}
-		if ok && sameShape(vals) {
+		if sameShape(vals) {
 			res.ghost[k] = mergeVal("ghost."+k, vals)
+		} else if !missing {
+			continue
 		}
 	}
 	return res
